@@ -6,6 +6,7 @@ import (
 	"sort"
 	"strconv"
 	"strings"
+	"time"
 )
 
 func init() { runners["C10"] = runC10 }
@@ -21,7 +22,6 @@ func init() { runners["C10"] = runC10 }
 // engine != oracle is a failing input of the property ("oracle"); engine != spec a difference from the proved
 // specification ("disagreement", a violation with a failing input because props/C10.json names a reference_spec).
 func runC10(cases string, res *Result) {
-	c10IncludedChains(res)
 	// findings are collected and reported smallest template set first, so that the failing input shown is a small one
 	type sized struct {
 		f    Finding
@@ -116,6 +116,8 @@ func runC10(cases string, res *Result) {
 			}
 		}
 	})
+	// last: a rendering that does not end leaves a goroutine behind; the results so far are complete
+	c10IncludedChains(res)
 }
 
 // c10IncludedChains: a template reached through an include has an extends chain of its own; its blocks are resolved
@@ -171,7 +173,13 @@ func c10IncludedChains(res *Result) {
 				res.add(Finding{Kind: "oracle", Where: "c10-included-chains/parse", Case: c, Detail: err.Error()})
 				continue
 			}
-			got, err := eng.Render("page", map[string]interface{}{})
+			var got string
+			var err error
+			if !c08WithTimeout(10*time.Second, func() { got, err = eng.Render("page", map[string]interface{}{}) }) {
+				res.add(Finding{Kind: "oracle", Where: "c10-included-chains/" + pg.name, Case: c, Expected: want, Observed: "no answer within 10 s",
+					Detail: "rendering does not end"})
+				return
+			}
 			if err != nil {
 				got = "error: " + err.Error()
 			}
